@@ -19,6 +19,7 @@ import json
 import math
 import os
 import random
+import time
 from concurrent.futures import ProcessPoolExecutor, ThreadPoolExecutor
 
 from .. import core
@@ -388,12 +389,18 @@ def run(ck):
     only = [f for f in os.environ.get("JV_FILTERS", "").split(",") if f]   # development aid
     with ThreadPoolExecutor(max_workers=1) as bg:
         mc = bg.submit((lambda t: ([], {})) if only else model_check, ck.tier)
+        t0 = time.time()
         cases = gen_cases(ck.tier, ck.seed)
+        t1 = time.time()
         if only:
             cases = [c for c in cases if c["f"] in only]
         recs, nruns = observe_all(cases)
+        t2 = time.time()
         rejected = fu.tlc_validate(ck, "StrFiltersTrace", recs, batch=7000, parallel=4 if ck.tier == "quick" else 6)
+        t3 = time.time()
         done, extra = mc.result()
+    ck.extra["phase_s"] = {"generate": round(t1 - t0, 1), "observe_real_code": round(t2 - t1, 1),
+                           "tlc_validate": round(t3 - t2, 1), "wait_model_check": round(time.time() - t3, 1)}
     for r, label in done:
         ck.add_tlc(r, label)
     ck.extra.update(extra)
